@@ -68,6 +68,10 @@ class Grammar:
             x = self._w(e["x"], bound, stack)
             lo = 0 if k == "rep" else (1 if k == "rep1" else e["min"])
             hi = lo + bound if k != "repn" or e["max"] is None else e["max"]
+            if k != "repn" and 2 <= len(x - {()}) <= 4:
+                # a repetition over a few different alternatives: two rounds, so that every order of two different children is met
+                # (`(a | b)*` admits `b a`, which one round never shows); a repetition of one alternative differs by its count only
+                hi = lo + max(bound, 2)
             out = set()
             for n in range(lo, hi + 1):
                 for combo in itertools.product(sorted(x), repeat=n):
